@@ -79,9 +79,13 @@ def da_rule_file(draw):
                                                    ['threshold_ok', ['cmp', ['name', 'amount'], [['<=', ['num', 50]]]]]]), max_size=2, unique_by=lambda v: v[0])),
             'transforms': draw(st.lists(st.sampled_from([r for r in [
                 ['description', ['call', 'regex_replace', [['fieldb', 'description'], ['str', r'^APLPAY\s+'], ['str', '']]]],
+                ['description', ['call', 'regex_replace', [['fieldb', 'description'], ['str', r'^(APLPAY|SQ \*|TST\*)\s*'], ['str', '']]]],
+                ['description', ['call', 'strip_prefix', [['fieldb', 'description'], ['str', 'APLPAY ']]]],
                 ['description', ['call', 'strip_prefix', [['fieldb', 'description'], ['str', 'SQ *']]]],
                 ['description', ['call', 'uppercase', [['fieldb', 'description']]]]]]), max_size=1)),
-            'rules': [draw(da_rule(i)) for i in range(n)]}
+            'rules': [draw(da_rule(i)) for i in range(n)] + draw(st.lists(st.sampled_from([
+                {'name': 'Prefixed', 'match': ['match', 'startswith', None, p_], 'category': 'Shopping', 'subcategory': 'Marketplace', 'merchant': None, 'priority': None, 'tags': [],
+                 'lets': [], 'fields': []} for p_ in ('SQ', 'APLPAY', 'TST')]), max_size=1))}
 
 
 @st.composite
@@ -101,7 +105,7 @@ def case(draw):
     probes = []
     for _ in range(draw(st.integers(1, 3))):
         words = draw(st.lists(lang.word, min_size=1, max_size=3))
-        pre = draw(st.sampled_from(['', '', 'APLPAY ', 'SQ *']))
+        pre = draw(st.sampled_from(['', '', 'APLPAY ', 'SQ *', 'APLPAY SQ *', 'APLPAY APLPAY ', 'SQ *SQ *', 'TST*APLPAY ']))
         probes.append({'desc': pre + ' '.join(words) + ' ' + draw(st.sampled_from(UNIQ)),
                        'amount': draw(st.one_of(st.sampled_from([x + d for x in (50, 100, 200, 500) for d in (-0.01, 0, 0.01)]), st.integers(100, 99999).map(lambda c: c / 100.0)))})
     return {'b': b, 'probes': probes}
